@@ -193,6 +193,7 @@ class Run(object):
             'module_sha1': dict((n, m.sha) for n, m in self.prog.mods.items()) if self.prog else {},
             'samples': samples[:400],
             'notes': self.notes,
+            'selftest': getattr(self, 'selftest', None),
             'exhaustive': False,
         }
         ev = {'property_id': self.pid, 'tier': self.tier,
